@@ -5,12 +5,16 @@ import random
 
 import core
 import corr_cleanup
+import corr_semcond
 import semcheck
 import semprop
 
 MODULE = "NgoVerif.Props.C08"
-LEVEL = ("Lean: ground-level here-and-there schema theorems (supportedness M5, removal of an implied positive body atom "
-         "M6+ on the definite-reduct class) and decision-kernel theorems about the executable model of cleanup.py (sign, "
+LEVEL = ("Lean: for typed programs with plain heads and bodies, deleting a positive body literal implied by another one keeps "
+         "the stable models, from the executable impliedCheck (Proofs/C08impl: supportedness + least model below T, all "
+         "instances of the rule at once) - the check is evaluated by the driver on every top-level deletion the real pass "
+         "makes; the boolean step is a strong equivalence for every head semantics; ground-level schema theorems "
+         "(supportedness M5, removal of an implied positive body atom M6+ on the definite-reduct class) and decision-kernel theorems about the executable model of cleanup.py (sign, "
          "argument positions, mapping sign, boolean elimination). The model (443 lines, whole pass after inline_arithmetic) "
          "is tied to cleanup.py by exact output comparison on generated programs; the step from syntactic mappings to the "
          "schema's side condition is validated on the real code with clingo (whole vocabulary, instances over the inputs).")
@@ -52,6 +56,18 @@ def run(ctx) -> int:
             extra = []
         ctx.cov["samples"].append({"correspondence": "cleanup/cleanup_mappings", "evaluations": r["evaluations"],
                                    "nontrivial": r["nontrivial"]})
+        # the executable hypothesis of `C08_remove_implied_typed` on every top-level deletion the real pass makes; a
+        # deletion outside the proved fragment is not a violation: its program joins the oracle's cases
+        r2 = corr_semcond.run(random.Random(ctx.rng.random()), 150 if ctx.quick() else 3000, corpus_limit=None, kinds={"cleanup"})
+        ctx.cov["evaluations"] += r2["evaluations"]
+        ctx.cov["distinct_nontrivial"] += r2["nontrivial"]
+        ctx.cov["unsupported"] += r2["unsupported"]
+        ctx.cov["histogram"].update({"corr:semcond:" + k: v for k, v in r2["histogram"].items()})
+        for m in r2["mismatches"][:20]:
+            ctx.mismatches.append(m)
+        extra += list(r2.get("extra_programs", []))[:40]
+        ctx.cov["samples"].append({"correspondence": "theorem side conditions on real deletions", "evaluations": r2["evaluations"],
+                                   "nontrivial": r2["nontrivial"]})
     else:
         extra = []
     semprop.replay_known(ctx)
